@@ -934,7 +934,9 @@ N_TRIPLES = len(POLLUTERS) * len(OBSERVERS) * len(RELATIONS)
 
 
 def triple_of(index):
-    i = index % N_TRIPLES
+    # stride coprime to N_TRIPLES (768 = 2^8 * 3): a full cycle still visits every triple once, but every relation
+    # and every polluter shows up within the first few dozen runs instead of relation by relation
+    i = (index * 295) % N_TRIPLES
     return (POLLUTERS[i % len(POLLUTERS)], OBSERVERS[(i // len(POLLUTERS)) % len(OBSERVERS)],
             RELATIONS[i // (len(POLLUTERS) * len(OBSERVERS))])
 
@@ -996,6 +998,13 @@ def gen_c09(rng, oracle, run_index, tier="quick"):
     if rng.random() < (0.012 if tier == "quick" else 0.04):
         return gen_c09_pressure(rng, oracle, p, tier)
     pol, obs, rel = triple_of(run_index)
+    if rng.random() < 0.08:
+        # the diagonal: the same kind of request first on one object and then on a related one (the observer then
+        # replays the polluter's very request half of the time) – where memos keyed by weak identity show
+        diag = [a for a in POLLUTERS if a.split("+")[0] in OBSERVERS]
+        pol = rng.choice(diag + ["solve", "select", "to_ge_polyhedron"])
+        obs = pol.split("+")[0]
+        rel = rng.choice(["twin", "twin", "alias", "same"])
     need_cfg = pol in ("ge_polyhedron", "select", "leafs", "add") or obs in ("ge_polyhedron", "select", "default_prios", "leafs")
     if pol.endswith("+cid"):
         p["compound_key_prob"] = max(p["compound_key_prob"], 0.25)
